@@ -184,7 +184,10 @@ impl IntoIterator for Reg {
                     Ok((7u8, u32::from(i)))
                 }
             }
-            Reg::None => unreachable!(),
+            // the placeholder result of a conditional or ewma that no enclosing bind replaced
+            Reg::None => Err(Error::from(String::from(
+                "conditional or ewma must be the value of a bind to a report or control variable",
+            ))),
         };
 
         reg.map(|(typ, idx)| {
